@@ -355,11 +355,20 @@ func (g *Graph) ResolveFuncValue(v ssa.Value, feasible map[[2]*ssa.BasicBlock]bo
 		case *ssa.Extract:
 			rec(x.Tuple)
 		case *ssa.Lookup:
-			if gl := globalOfLoad(x.X); gl != nil {
-				if ents, ok := g.Tables[gl]; ok {
-					for _, e := range ents {
-						if e.Fn != nil {
-							fns = append(fns, e.Fn)
+			gls, ok := TableGlobals(x.X, feasible)
+			if ok {
+				all := true
+				for _, gl := range gls {
+					if _, has := g.Tables[gl]; !has {
+						all = false
+					}
+				}
+				if all && len(gls) > 0 {
+					for _, gl := range gls {
+						for _, e := range g.Tables[gl] {
+							if e.Fn != nil {
+								fns = append(fns, e.Fn)
+							}
 						}
 					}
 					return
@@ -861,3 +870,28 @@ func (g *Graph) concreteResultTypes(call *ssa.Call, idx, depth int) ([]types.Typ
 
 // ConcreteTypesOf exposes the dynamic-type resolution used for field-sensitive dispatch.
 func (g *Graph) ConcreteTypesOf(v ssa.Value) ([]types.Type, bool) { return g.concreteTypesOf(v, 0) }
+
+// TableGlobals resolves a map value to the package-level variables it may have been loaded from
+// (a direct load, or a phi of loads; infeasible phi edges are skipped when feasibility is known).
+func TableGlobals(v ssa.Value, feasible map[[2]*ssa.BasicBlock]bool) ([]*ssa.Global, bool) {
+	switch x := v.(type) {
+	case *ssa.UnOp:
+		if gl := globalOfLoad(x); gl != nil {
+			return []*ssa.Global{gl}, true
+		}
+	case *ssa.Phi:
+		var out []*ssa.Global
+		for i, e := range x.Edges {
+			if feasible != nil && !feasible[[2]*ssa.BasicBlock{x.Block().Preds[i], x.Block()}] {
+				continue
+			}
+			gs, ok := TableGlobals(e, feasible)
+			if !ok {
+				return nil, false
+			}
+			out = append(out, gs...)
+		}
+		return out, true
+	}
+	return nil, false
+}
